@@ -131,6 +131,10 @@ func (c *conn) Transport(ctx context.Context, request []byte) (response []byte, 
 		return nil, core.ErrRequestEntityTooLarge
 	}
 	index := int(atomic.AddInt32(&c.counter, 1) & 0x7fff)
+	// the sender goroutine may still be writing this request after the call has been abandoned
+	// (context ended) and the caller has its slice back: it gets a copy of its own
+	body := make([]byte, len(request))
+	copy(body, request)
 	resultChan := make(chan data, 1)
 	verifYield("before-store", c, index)
 	// the index has 15 bits: skip the indices of calls that are still pending
@@ -148,7 +152,7 @@ func (c *conn) Transport(ctx context.Context, request []byte) (response []byte, 
 		return nil, ctx.Err()
 	case c.requests <- data{
 		Index: index,
-		Body:  request,
+		Body:  body,
 	}:
 	case res := <-resultChan:
 		return res.Body, res.Error
